@@ -5,6 +5,7 @@ pub mod battery;
 pub mod case;
 pub mod exec;
 pub mod gen;
+pub mod history;
 pub mod judge;
 pub mod model;
 pub mod props;
